@@ -50,8 +50,8 @@ META = {
     },
     "C08": {
         "sections": ["Arith.Abs", "Arith.Max", "Arith.Compare"],
-        "rule": "regions of 1..3 (thorough 4) segments with lengths 0..3 and gaps 0..2 plus two 5-segment regions, each on both strands (and bare segments), x all five modifier forms with offsets in [-len-3,len+3] (two-offset forms on a step-2 grid); Modifier.Apply on all (h,t) in [0,6]^2 incl. the mirror law; modifier print/re-parse; 8 locator specifiers x 7 modifiers on a 5-feature table. Oracle: inside bounds the resized region denotes spliced[lo:hi] (positions and residues through Locate); outside bounds the first/last segment is extended outward.",
-        "assumptions": ["theorem C08_resize_slice covers every nested region and modifier with bounds inside the region (rwf: non-empty Regions values, coordinates within +-2^62; sums of lengths as unbounded Z); offsets outside the region, modifier print/parse and locators are decided by exhaustive correspondence + oracle",
+        "rule": "regions of 1..3 (thorough 4) segments with lengths 0..3 and gaps 0..2 plus two 5-segment regions, each on both strands (and bare segments), x all five modifier forms with offsets in [-len-3,len+3] (two-offset forms on a step-2 grid); Modifier.Apply on all (h,t) in [0,6]^2 incl. the mirror law; modifier print/re-parse; EVERY string of <=5 (thorough 6) symbols over {^,$,..,.,+,-,0,1,7} through AsModifier and the printed form of every modifier over an 18-value offset grid up to the edges of int; 8 locator specifiers x 7 modifiers on a 5-feature table. Oracle: inside bounds the resized region denotes spliced[lo:hi] (positions and residues through Locate); outside bounds the first/last segment is extended outward.",
+        "assumptions": ["theorem C08_resize_slice covers every nested region and modifier with bounds inside the region (rwf: non-empty Regions values, coordinates within +-2^62; sums of lengths as unbounded Z); theorem C08_modifier_print_parse covers Modifier.String then AsModifier for int64 offsets; offsets outside the region and locators are decided by exhaustive correspondence + oracle",
                         "regexp selectors inside locators are exercised with literal keys/values only"],
     },
     "C09": {
@@ -78,7 +78,7 @@ META = {
         "sections": ["Tables.QuotedQualifierNames", "Tables.LiteralQualifierNames", "Tables.ToggleQualifierNames", "Arith.isLeapYear", "Arith.toOriginLength", "Arith.fromOriginLength", "Arith.Abs"],
         "rule": "generated records of the writable domain (16 residue counts around the 10/60-residue edges then random < 400, 0..8 features with random INSDC locations built through the API, quoted/literal/toggle/unknown-name/multi-line qualifiers, every header field incl. DBLINK, multi-line DEFINITION/COMMENT/reference subfields, extra fields, CONTIG-only records), 16 edge classes (one aspect at the edge of the domain each), the four corpus files, streams of 2..5 records, and records reached from those by 1..5 random insert/embed/delete/erase/slice/rotate/reverse/complement/concat operations: GenBank.String (= model gb_show), then the reader (= model scan_genbank), then the writer again; date_show/as_date over a sweep of years x 12 months; wrap.Space on 300 strings. Oracle: one record read back, clean end, equal projected fields/table/residues, byte-identical second write, independent framing of streams.",
         "assumptions": ["projected observables: the slice REGION is compared as the accession line the writer prints; a toggle qualifier is compared by presence (the writer prints no value for it)",
-                        "theorems: the LOCUS date round trip for all valid dates of years 0..9999; the whole-record round trip is decided by correspondence of writer and reader with the model on every generated/corpus/pipeline record plus the oracle",
+                        "theorems: the whole LOCUS line (name, length, molecule, topology, division, date) reads back as written; field bodies, KEYWORDS and qualifier values round-trip; the whole-record round trip is decided by correspondence of writer and reader with the model on every generated/corpus/pipeline record plus the oracle",
                         "the qualifier-name registries are process-global; each case starts from the registries as initialised (the harness restores them), the model threads them through a scan"],
     },
     "C07": {
